@@ -167,7 +167,35 @@ def _rand_mdp(labels, alabels, rep, seed, **kw):
     return b.mdp
 
 
-def _graph(labels, seed):
+def _rand_mdp_fset(seed):
+    """Member of the random family whose states contain sets of strings: even states are
+    frozensets of three strings, odd states tuples holding such a frozenset (explicit lists,
+    so the order of state_list / action_list does not depend on the hash seed)."""
+    from fractions import Fraction
+    from msdm.core.mdp import QuickTabularMDP
+    from msdm.core.distributions import DictDistribution
+    m = _abstract(seed)
+    N, K = m["N"], m["K"]
+    base = [frozenset({f"room{i}", "lit" if i % 3 else "dark", "has-key"}) for i in range(N)]
+    sl = [base[i] if i % 2 == 0 else ("at", base[i]) for i in range(N)]
+    al = [f"a{j}" for j in range(K)]
+    si = {x: i for i, x in enumerate(sl)}
+    ai = {x: j for j, x in enumerate(al)}
+    mdp = QuickTabularMDP(
+        next_state_dist=lambda s, a: DictDistribution({sl[t]: float(Fraction(m["P"][si[s]][ai[a]][t], m["PD"]))
+                                                       for t in range(N) if m["P"][si[s]][ai[a]][t] > 0}),
+        reward=lambda s, a, ns: float(m["R"][si[s]][ai[a]][si[ns]]),
+        actions=lambda s: tuple(al[j] for j in range(K) if m["avail"][si[s]][j]),
+        initial_state_dist=lambda: DictDistribution({sl[t]: float(Fraction(m["p0"][t], m["ID"]))
+                                                     for t in range(N) if m["p0"][t] > 0}),
+        is_absorbing=lambda s: bool(m["abs"][si[s]]),
+        discount_rate=float(Fraction(m["GN"], m["GD"])))
+    mdp._state_list = list(sl)
+    mdp._action_list = list(al)
+    return mdp
+
+
+def _graph(labels, seed, stored=False):
     """Deterministic shortest-path problem with many equal-cost paths (ties matter)."""
     from msdm.core.mdp import TabularMarkovDecisionProcess, DeterministicShortestPathProblem
     from msdm.core.distributions import DeterministicDistribution
@@ -195,9 +223,16 @@ def _graph(labels, seed):
         def _xy(self, s):
             return tuple(int(v) for v in s[1:].split("_")) if labels == "str" else s
 
+        _acts = {}          # stored=True: state-dependent action sets kept in a table of lists
+
         def actions(self, s):
+            if stored and s in self._acts:
+                return self._acts[s]            # the stored list object itself
             xy = self._xy(s)
-            return [aname(d) for d in ((1, 0), (0, 1), (-1, 0), (0, -1)) if (xy, d) in cost]
+            aa = [aname(d) for d in ((1, 0), (0, 1), (-1, 0), (0, -1)) if (xy, d) in cost]
+            if stored:
+                self._acts[s] = aa
+            return aa
 
         def _d(self, a):
             return {"east": (1, 0), "north": (0, 1), "west": (-1, 0), "south": (0, -1)}[a] if labels == "str" else a
@@ -300,6 +335,8 @@ PROBLEMS = {
     "gridworld": (lambda k: _gridworld(k), dict(lk="str", shape="unsortable-labels", multi=1)),
     "gridworld_single": (lambda k: _gridworld(k, 1.0, 1.0, single=True), dict(lk="str", shape="unsortable-labels", multi=0)),
     "graph_str": (lambda k: _graph("str", 5 + k), dict(lk="str", shape="str-labels", multi=0)),
+    "graph_stored": (lambda k: _graph("str", 7 + k, stored=True), dict(lk="str", shape="str-labels", multi=0)),
+    "mdp_fset": (lambda k: _rand_mdp_fset(17 + 100 * k), dict(lk="str", shape="set-of-str-labels", multi=1)),
     "graph_tuple": (lambda k: _graph("tuple", 6 + k), dict(lk="int", shape="int-labels", multi=0)),
     "romania": (lambda k: __import__("msdm.tests.domains", fromlist=["x"]).RomaniaSubsetAIMA(),
                 dict(lk="str", shape="str-labels", multi=0)),
@@ -314,7 +351,10 @@ PROBLEMS = {
 
 
 def problem(name):
-    """One instance per process and name (msdm's caches are per instance and deterministic)."""
+    """General rule: the problem object of a name is built once per worker process and shared by
+    all runs (all seeds, prior states, fresh and reused planner objects, all cases) of that
+    process, so that contamination from one run to the next through the problem object (e.g. an
+    action list of the problem shuffled in place) shows up under the rerun clause."""
     if name not in _PCACHE:
         base, _, k = name.partition("@")
         _PCACHE[name] = PROBLEMS[base][0](int(k or 0))
@@ -715,12 +755,15 @@ def make_plan(tier, seed):
         cases += [
             C("LAOStar", s("mdp_str")), C("LAOStar", s("mdp_str_g1")), C("LAOStar", s("gridworld")),
             C("LAOStar", s("mdp_int")), C("LAOStar", s("mdp_tuple"), rao=False), C("LAOStar", s("mdp_str2"), rno=False),
+            C("LAOStar", s("mdp_str"), rao=False, rno=False), C("LAOStar", s("mdp_int"), rao=False, rno=False),
             C("LRTDP", s("mdp_str")), C("LRTDP", s("gridworld")), C("LRTDP", s("mdp_int"), rao=False),
             C("LRTDP", s("mdp_str_g1")), C("LRTDP", s("mdp_str_single"), rao=False),
             C("AStarSearch", s("graph_str")), C("AStarSearch", s("graph_tuple")),
             C("AStarSearch", s("graph_str"), tie="lifo"), C("AStarSearch", s("graph_tuple"), tie="fifo"),
             C("AStarSearch", s("graph_str"), rao=False),
             C("AStarSearch", s("gridworld_single")),
+            C("AStarSearch", s("graph_stored")), C("AStarSearch", s("graph_stored"), tie="lifo"),
+            C("BreadthFirstSearch", s("graph_stored")),
             C("BreadthFirstSearch", s("graph_str")), C("BreadthFirstSearch", s("graph_tuple")),
             C("BreadthFirstSearch", s("gridworld_single")),
             C("TD", s("mdp_str"), cls="QLearning"), C("TD", s("gridworld"), cls="QLearning", episodes=8),
@@ -734,6 +777,8 @@ def make_plan(tier, seed):
             C("SemiMDP", s("mdp_str"), options="named"), C("SemiMDP", s("mdp_int"), options="named"),
             C("SemiMDP", s("mdp_int"), options="intname"), C("SemiMDP", s("mdp_int"), options="unnamed"),
             C("SemiMDP", s("gridworld"), options="unnamed"), C("SemiMDP", s("mdp_int"), options="plain"),
+            C("SemiMDP", s("mdp_fset"), options="named"), C("SemiMDP", s("mdp_fset"), options="unnamed"),
+            C("SemiMDP", s("mdp_fset"), options="plain"),
             C("Rollout", s("mdp_str")), C("Rollout", s("mdp_str"), policy="skewed"),
             C("Rollout", s("gridworld"), policy="vi"), C("Rollout", s("mdp_int")),
             C("Rollout", s("mdp_tuple"), policy="vi"), C("Rollout", s("mdp_str_single"), policy="skewed"),
